@@ -599,7 +599,10 @@ class APIConnection:
         This part of the process establishes the socket connection but
         does not initialize the frame helper or send the hello message.
         """
-        if self.connection_state is not CONNECTION_STATE_INITIALIZED:
+        if (
+            self.connection_state is not CONNECTION_STATE_INITIALIZED
+            or self._start_connect_future is not None
+        ):
             raise RuntimeError(
                 "Connection can only be used once, connection is not in init state"
             )
@@ -679,7 +682,10 @@ class APIConnection:
         This part of the process initializes the frame helper and sends the hello message
         than starts the keep alive process.
         """
-        if self.connection_state is not CONNECTION_STATE_SOCKET_OPENED:
+        if (
+            self.connection_state is not CONNECTION_STATE_SOCKET_OPENED
+            or self._finish_connect_future is not None
+        ):
             raise RuntimeError(
                 "Connection must be in SOCKET_OPENED state to finish connection"
             )
